@@ -1,5 +1,6 @@
 /- Audit of property C10: one `#print axioms` per property theorem (allowed: propext, Classical.choice, Quot.sound). -/
 import CG.Proofs.C10
+import CG.Proofs.TopoOrders
 
 #print axioms CG.C10.descendants_iff
 #print axioms CG.C10.ancestors_iff
@@ -32,3 +33,9 @@ import CG.Proofs.C10
 #print axioms CG.C10.nodesBetween_eq_paths_union
 #print axioms CG.C10.queries_order_invariant
 #print axioms CG.C10.queries_rename_invariant
+
+#print axioms CG.TopoThm.allTopo_iff
+#print axioms CG.TopoThm.isTopoOrder_iff
+#print axioms CG.TopoThm.linExt_path_forward
+#print axioms CG.TopoThm.exists_linExt
+#print axioms CG.TopoThm.allTopo_ne_nil_iff
